@@ -12,7 +12,9 @@
    Every statement is for ALL expiries, ALL ':'-free request ids and ALL
    instance ids (any list of byte codes: empty, "::" inside, any length), and
    for any decimal rendering [dec] / [undec] with [dec_ok] (fmt %d /
-   strconv.ParseInt: trusted).  Variants: [head4] = the code as it is in /repo
+   strconv.ParseInt); section K at the end discharges [dec_ok] for the real
+   rendering [dec10] / [undec10] (strconv.FormatInt / ParseInt, base 10, 64
+   bits) and restates the J theorems without that hypothesis.  Variants: [head4] = the code as it is in /repo
    (fix F-C02c, commit 42201a6: SplitN); [unfixed4] = /repo before that commit
    (Split, exactly three parts: refuted); [seeded12] / [seeded12u] = seeded
    change C02-12 (refuted).
@@ -22,7 +24,7 @@
    C02_gc_item_is_GItem below: [Model.exec]'s frame [GItem q e r] does exactly
    what [gc_item] says about the string the code wrote for (e, r). *)
 From Coq Require Import List ZArith Bool Lia.
-From Verif Require Import C02.Model C02.Model4 C02.Proofs8.
+From Verif Require Import C02.Model C02.Model4 C02.Proofs8 C02.Proofs10.
 Import ListNotations.
 Open Scope Z_scope.
 
@@ -185,4 +187,147 @@ Example C02_ex_members :
   (* seeded C02-12: the empty id is never collected *)
   map (fun i => gc_item undec10 seeded12 5000000000 (item i)) [[]; gw; sepd] = [false; true; true] /\
   parse undec10 head4 (item sepd) = Some (1010000000, [116; 48], sepd).
+Proof. vm_compute. repeat split; reflexivity. Qed.
+
+(* ------------------------------------------------------------------ K: the real decimal
+
+   [dec_ok] is not a free hypothesis: Model4.dec10 (strconv.FormatInt(e, 10) =
+   fmt %d of an int64: '-' and the digits) and Model4.undec10
+   (strconv.ParseInt(s, 10, 64): optional sign, digits only, ParseUint's
+   overflow check per digit, ParseInt's cutoff 2^63; None = any error) are
+   executable Gallina, compared with Go's own functions on every run (suite
+   [dec]), and proved here to be what the J theorems need — for every int64
+   expiry with the range checks, for EVERY integer without them (undecZ). *)
+
+(* (K.1) ParseInt reads back what FormatInt wrote, for every int64 *)
+Theorem C02_dec10_round_trip : forall e, int64 e -> undec10 (dec10 e) = Some e.
+Proof. exact undec10_dec10. Qed.
+Print Assumptions C02_dec10_round_trip.
+
+(* ... with the error class: never a syntax or range error on its own output *)
+Theorem C02_dec10_parse10 : forall e, int64 e -> parse10 true (dec10 e) = POk e.
+Proof. intros e H. exact (parse10_dec10 true e (fun _ => H)). Qed.
+Print Assumptions C02_dec10_parse10.
+
+(* (K.2) the rendering never contains ':' (any integer) *)
+Theorem C02_dec10_no_colon : forall e, cfree (dec10 e).
+Proof. exact dec10_cfree. Qed.
+Print Assumptions C02_dec10_no_colon.
+
+(* (K.3) [dec_ok] itself, for ALL integers, with the reading that has no range
+   check: the hypothesis of the J theorems and of GenEquiv's real encoding is
+   met by the real rendering (this is what makes the encoding injective) *)
+Theorem C02_dec10_dec_ok : dec_ok dec10 undecZ.
+Proof. exact dec10_ok_ideal. Qed.
+Print Assumptions C02_dec10_dec_ok.
+
+(* (K.4) ParseInt accepts exactly the strings the range-free reading accepts
+   with a value inside int64, with that value: the range checks (per digit
+   against 2^64-1, at the end against 2^63) never change a result, they only
+   refuse — so nothing ParseInt returns is out of range, and a long run of
+   leading zeros is fine *)
+Theorem C02_undec10_is_ranged_reading :
+  forall s z, undec10 s = Some z <-> undecZ s = Some z /\ int64 z.
+Proof. exact undec10_spec. Qed.
+Print Assumptions C02_undec10_is_ranged_reading.
+
+(* (K.5) the J theorems for the real decimal: no hypothesis about dec / undec *)
+Theorem C02_member_read_back_real_decimal :
+  forall e rid inst, int64 e -> cfree rid ->
+    parse undec10 head4 (render dec10 e rid inst) = Some (e, rid, inst).
+Proof.
+  intros e rid inst He Hr.
+  exact (parse_head_at dec10 undec10 e rid inst (undec10_dec10 e He) (dec10_cfree e) Hr).
+Qed.
+Print Assumptions C02_member_read_back_real_decimal.
+
+Theorem C02_expiry_collection_real_decimal :
+  forall now e rid inst, int64 e -> cfree rid ->
+    gc_item undec10 head4 now (render dec10 e rid inst) = (e <=? now).
+Proof.
+  intros now e rid inst He Hr. unfold gc_item.
+  rewrite (C02_member_read_back_real_decimal e rid inst He Hr). reflexivity.
+Qed.
+Print Assumptions C02_expiry_collection_real_decimal.
+
+Theorem C02_expiry_collection_ignores_instance_id_real_decimal :
+  forall now e rid inst inst', int64 e -> cfree rid ->
+    gc_item undec10 head4 now (render dec10 e rid inst) =
+    gc_item undec10 head4 now (render dec10 e rid inst').
+Proof.
+  intros now e rid inst inst' He Hr.
+  rewrite !C02_expiry_collection_real_decimal by assumption. reflexivity.
+Qed.
+Print Assumptions C02_expiry_collection_ignores_instance_id_real_decimal.
+
+Corollary C02_expired_member_collected_real_decimal :
+  forall now e rid inst, int64 e -> cfree rid ->
+    (e <= now -> gc_item undec10 head4 now (render dec10 e rid inst) = true) /\
+    (now < e -> gc_item undec10 head4 now (render dec10 e rid inst) = false).
+Proof.
+  intros now e rid inst He Hr.
+  rewrite (C02_expiry_collection_real_decimal now e rid inst He Hr). split; intros H.
+  - apply Z.leb_le. exact H.
+  - apply Z.leb_gt. exact H.
+Qed.
+Print Assumptions C02_expired_member_collected_real_decimal.
+
+(* the frame GItem of Model.exec decides as the code does on the string it
+   wrote with real digits *)
+Theorem C02_gc_item_is_GItem_real_decimal :
+  forall c s t q e r rest rid inst, int64 e -> cfree rid ->
+    exec c s t (GItem q e r) rest =
+      if gc_item undec10 head4 (Model.now s) (render dec10 e rid inst)
+      then set_stk (set_members s q (remove_first (e, r) (members s q))) t (GDel q r :: rest)
+      else set_stk s t rest.
+Proof.
+  intros c s t q e r rest rid inst He Hr.
+  rewrite (C02_expiry_collection_real_decimal (Model.now s) e rid inst He Hr). reflexivity.
+Qed.
+Print Assumptions C02_gc_item_is_GItem_real_decimal.
+
+(* the parser of /repo before fix F-C02c, real digits: right outside ':' in the
+   instance id, and refuted with it (the refutation of section J used the
+   one-code rendering; this one is the member the code writes) *)
+Theorem C02_expiry_collection_unfixed_real_decimal :
+  (forall now e rid inst, int64 e -> cfree rid -> cfree inst ->
+     gc_item undec10 unfixed4 now (render dec10 e rid inst) = (e <=? now)) /\
+  gc_item undec10 unfixed4 5000000000 (render dec10 1010000000 [116; 48] [100; 58; 58; 103]) = false.
+Proof.
+  split; [|vm_compute; reflexivity].
+  intros now e rid inst He Hr Hi. unfold gc_item.
+  rewrite (parse_unfixed_cfree_at dec10 undec10 e rid inst (undec10_dec10 e He) (dec10_cfree e) Hr Hi).
+  reflexivity.
+Qed.
+Print Assumptions C02_expiry_collection_unfixed_real_decimal.
+
+(* the real encoding is injective for every integer expiry (no int64 side
+   condition: injectivity needs a left inverse, not ParseInt's range check) *)
+Theorem C02_member_encoding_injective_real_decimal :
+  forall (ridof : Z -> str) (inst : str),
+    (forall r, cfree (ridof r)) -> (forall r r', ridof r = ridof r' -> r = r') ->
+    forall a b : Z * Z,
+      render dec10 (fst a) (ridof (snd a)) inst = render dec10 (fst b) (ridof (snd b)) inst -> a = b.
+Proof. exact (C02_member_encoding_injective dec10 undecZ C02_dec10_dec_ok). Qed.
+Print Assumptions C02_member_encoding_injective_real_decimal.
+
+(* the boundaries, computed: both ends of int64 go round; one past either end
+   is a RANGE error, as are 2^64 and a digit run that overflows before a bad
+   byte is reached; sign alone, empty, '_' , blanks, a second sign are SYNTAX
+   errors; '+' and leading zeros are accepted *)
+Example C02_ex_dec10 :
+  dec10 0 = [48] /\ dec10 (-1) = [45; 49] /\ dec10 1010000000 = [49;48;49;48;48;48;48;48;48;48] /\
+  dec10 (-9223372036854775808) = [45;57;50;50;51;51;55;50;48;51;54;56;53;52;55;55;53;56;48;56] /\
+  map (fun e => undec10 (dec10 e)) [0; -1; 9223372036854775807; -9223372036854775808]
+    = [Some 0; Some (-1); Some 9223372036854775807; Some (-9223372036854775808)] /\
+  map (fun e => parse10 true (dec10 e))
+      [9223372036854775808; -9223372036854775809; 18446744073709551615; 18446744073709551616]
+    = [PRange; PRange; PRange; PRange] /\
+  parse10 true (dec10 99999999999999999999 ++ [120]) = PRange /\
+  parse10 true (120 :: dec10 99999999999999999999) = PSyntax /\
+  map (parse10 true) [[]; [45]; [43]; [49; 95; 48]; [32; 49]; [49; 32]; [45; 45; 49]; [43; 45; 49]]
+    = [PSyntax; PSyntax; PSyntax; PSyntax; PSyntax; PSyntax; PSyntax; PSyntax] /\
+  map (parse10 true) [[43; 53]; [45; 48]; [48; 48; 48; 48; 48; 48; 48; 48; 48; 48; 48; 48; 48; 48; 48; 48; 48; 48; 48; 48; 48; 48; 55]]
+    = [POk 5; POk 0; POk 7] /\
+  undecZ (dec10 18446744073709551616) = Some 18446744073709551616.
 Proof. vm_compute. repeat split; reflexivity. Qed.
